@@ -268,7 +268,7 @@ DED_NOTE['lmap'] = ('deductive part (Verus): LineMap::last_line, pos_for_line_co
                     '(established by LineMap::normalize - checked on enumerated documents by the Kani harnesses, which assert an executable copy of wf), that every character boundary of the text is an offset not strictly inside a recorded character '
                     '(normalize records every multi-byte character with its width difference - same harnesses), FxHashMap as a finite map, slice::partition_point / Iterator take_while, map, sum::<u32> by their standard-library meaning '
                     '(external_body helpers whose bodies are the original expressions), Option::copied.  If the unit cannot be extracted or Verus rejects it, this part is reported as undecided and the bounded harnesses alone decide.')
-DED_NOTE['conv'] = ('deductive part (Verus): convert::from_pos and convert::from_range (ensure! expanded, R17) are verified for ALL client positions / ranges and ALL line maps, '
+DED_NOTE['conv'] = ('deductive part (Verus): convert::from_file and from_file_pos (a request for an unknown or closed document is an Err and never indexes the file table: relative to Vfs::wf and the contracts of Vfs::file_for_uri / line_map_for_file that the vfs unit proves) and convert::from_pos and convert::from_range (ensure! expanded, R17) are verified for ALL client positions / ranges and ALL line maps, '
                     'relative to the contracts of LineMap::last_line / end_col_for_line (requires an existing line) / pos_for_line_col (requires a valid position) and Vfs::line_map_for_file: a position is accepted exactly '
                     'when its line exists and its column is within the line, and then converts to the line map\'s offset; a range exactly when both ends are accepted and it is not reversed; TextRange::new is only '
                     'reached with start <= end; the validating calls happen before the converting call. ASSUMED there: those contracts (what the Kani harnesses establish on enumerated documents), the stand-in structs, anyhow::Error as an opaque value. '
